@@ -316,3 +316,181 @@ def obligations():
     return _c08_obl3() + [Ob('O8.4-contains-closure-d2', 'a type mentions a closure environment struct iff ty_contains_closure says so: depth 2', ob_contains_closure, ('quick', 'thorough'), 5, dict(depth=2, top=comp + ['TApp'], inner=comp + ['TInt32'])),
                           Ob('O8.4-contains-closure-d2w', 'same, depth 2, component lists of 1..2', ob_contains_closure, ('thorough',), 50, dict(depth=2, top=comp, inner=comp + ['TInt32'], vec_len=(1, 2))),
                           Ob('O8.4-contains-closure-d3', 'same, depth 3', ob_contains_closure, ('thorough',), 50, dict(depth=3, top=['TTuple', 'TArray', 'TFunc'], inner=['TTuple', 'TFunc', 'TStruct']))]
+
+# ----------------------------------------------------------------------------- O8.5 closure conversion: every captured variable is read back from the environment field it was stored in
+def _lift_world():
+    from mirsym.engine import Cell_
+    W = e2.fresh_world(CRATES); tt = W.tt
+    class K: pass
+    k = K(); k.W = W; k.tt = tt
+    k.TY = tt.find_adt(['tast', 'Ty'], 'compiler'); k.LE = tt.find_adt(['lift', 'LiftExpr'], 'compiler'); k.ME = [a for a in tt.by_name['MonoExpr'] if a.crate == 'compiler'][0]
+    k.SD = tt.find_adt(['env', 'StructDef'], 'compiler'); k.TI = tt.find_adt(['tast', 'TastIdent'], 'compiler'); k.PR = tt.find_adt(['common', 'Prim'], 'compiler')
+    k.CP = tt.find_adt(['tast', 'ClosureParam'], 'compiler'); k.LF = tt.find_adt(['lift', 'LiftFn'], 'compiler')
+    k.SC = [a for a in tt.by_name['Scope'] if a.crate == 'compiler' and 'lift' in '::'.join(a.path)][0]; k.SE = [a for a in tt.by_name['ScopeEntry'] if a.crate == 'compiler'][0]
+    k.ST = [a for a in tt.by_name['State'] if a.crate == 'compiler' and 'lift' in '::'.join(a.path)][0]
+    W.stubs['ty_compact'] = lambda ex, a: mkstr('T' + str(abs(hash(repr(ex.deref(a[0])))) % 100000))
+    k.T = lambda n, *f: Agg(k.TY.key, k.TY.vindex(n), list(f))
+    k.M = lambda n, **kw: Agg(k.ME.key, k.ME.vindex(n), [kw[f[0]] for f in k.ME.variants[k.ME.vindex(n)].fields])
+    k.ident = lambda n: Agg(k.TI.key, 0, [mkstr(n)])
+    def fresh_state(ex, scope_vars, closures=()):
+        genv2 = ex.call('env::GlobalTypeEnv::new_empty', []); monoenv = ex.call('mono::GlobalMonoEnv::from_genv', [genv2])
+        liftenv = ex.call('lift::GlobalLiftEnv::from_monoenv', [monoenv])
+        hl = {0: liftenv, 1: Agg('compiler::env::Gensym', 0, [Cell_(0)])}
+        state = ex.call('lift::State::new', [Ref(hl, 0), Ref(hl, 1)]); h = {0: state}
+        for i, cn in enumerate(closures):
+            hl[10 + i] = k.ident(cn); ex.call('lift::State::register_closure_type', [Ref(h, 0), Ref(hl, 10 + i), mkstr('apply_' + cn)])
+        layer = PyMap('index')
+        for n, (ty, cs) in scope_vars.items():
+            layer.keys.append(mkstr(n)); layer.vals.append(Agg(k.SE.key, 0, [ty, ms.some(mkstr(cs)) if cs else ms.NONE()]))
+        h[1] = Agg(k.SC.key, 0, [PyVec([layer])])
+        return h, hl
+    k.fresh_state = fresh_state
+    k.lf = lambda e: (k.LE.variants[e.idx].name, dict(zip([x[0] for x in k.LE.variants[e.idx].fields], e.fields)))
+    return k
+
+def ob_closure_rebind(r, tier, seed, nuses=3):
+    k = _lift_world(); T = k.T; M = k.M
+    VARS = {'a': 'TInt32', 'b': 'TBool', 's': 'TString', 'u': 'TUnit'}
+    r.bounds = 'lift::transform_expr on the closure |p: int32| (v1, .., v%d) with every vi a solver-chosen variable among the outer a: int32, b: bool, s: string, u: unit and the parameter p (all sequences, repetitions included)' % nuses
+    r.assumptions = ['names::ty_compact (external `pretty` crate) replaced by a stand-in (the apply function name is not inspected)',
+                     'oracle: the closure value is the environment struct built from the captured variables; in the generated apply function every captured variable v is bound, exactly once and before the body, to a read of the field index j of the environment parameter such that the constructor argument j is v and the declared type of field j is the type of v; the parameter p is not rebound']
+    def entry(ex):
+        uses = [ex.choose([(True, v) for v in list(VARS) + ['p']]) for _ in range(nuses)]
+        h, hl = k.fresh_state(ex, {n: (T(t), None) for n, t in VARS.items()})
+        tyof = lambda v: T('TInt32') if v == 'p' else T(VARS[v])
+        body = M('ETuple', items=PyVec([M('EVar', name=mkstr(v), ty=tyof(v)) for v in uses]), ty=T('TTuple', PyVec([tyof(v) for v in uses])))
+        clo = M('EClosure', params=PyVec([Agg(k.CP.key, 0, [{'name': mkstr('p'), 'ty': T('TInt32'), 'astptr': ms.NONE()}[f[0]] for f in k.CP.variants[0].fields])]), body=mkbox(body),
+                ty=T('TFunc', PyVec([T('TInt32')]), mkbox(T('TTuple', PyVec([tyof(v) for v in uses])))))
+        res = ex.call('lift::transform_expr', [Ref(h, 0), Ref(h, 1), clo])
+        n, f = k.lf(res)
+        if n != 'EConstr': return uses, ('shape', 'the closure value is %s, not a constructor of the environment struct' % n)
+        args = []
+        for a_ in f['args'].items:
+            an, af = k.lf(a_); args.append(ms.pystr(af['name']) if an == 'EVar' else '<%s>' % an)
+        st = h[0]; sf = dict(zip([x[0] for x in k.ST.variants[0].fields], st.fields)); fns = sf['new_functions'].items
+        if len(fns) != 1: return uses, ('shape', '%d apply functions generated' % len(fns))
+        ff = dict(zip([x[0] for x in k.LF.variants[0].fields], fns[0].fields)); params = [ms.pystr(p_.fields[0]) for p_ in ff['params'].items]
+        envty = f['ty']; sname = ms.pystr(envty.fields[0]); hl[5] = k.ident(sname)
+        sd = ex.call('lift::GlobalLiftEnv::get_struct', [Ref(hl, 0), Ref(hl, 5)])
+        if sd.idx == 0: return uses, ('shape', 'environment struct %s not registered' % sname)
+        d = ex.deref(sd.fields[0]); fl = dict(zip([x[0] for x in k.SD.variants[0].fields], d.fields)); ftys = [k.TY.variants[x.fields[1].idx].name for x in fl['fields'].items]
+        lets = []; e = ff['body']
+        while True:
+            if isinstance(e, Agg) and e.ty == 'Box': e = unbox(e)
+            en, ef = k.lf(e)
+            if en != 'ELet': break
+            v = ef['value']; v = unbox(v) if v.ty == 'Box' else v; vn, vf = k.lf(v)
+            if vn != 'EConstrGet': break
+            src = vf['expr']; src = unbox(src) if src.ty == 'Box' else src; sn, sff = k.lf(src)
+            lets.append((ms.pystr(ef['name']), vf['field_index'], ms.pystr(sff['name']) if sn == 'EVar' else '<%s>' % sn)); e = ef['body']
+        return uses, ('ok', args, params, ftys, lets)
+    res = e2.explore(r, k.W, entry, [])
+    for p in res:
+        r.cases += 1
+        if p.kind != 'ok':
+            if not any(f.key == 'panic' for f in r.findings): r.findings.append(Finding('panic', 'transform_expr panics on a closure: %s' % str(p.value)[:200], {}, False, 'not replayed'))
+            continue
+        uses, out = p.value; r.nontrivial += 1
+        free = []
+        for v in uses:
+            if v != 'p' and v not in free: free.append(v)
+        bad = None
+        if out[0] != 'ok': bad = out[1]
+        else:
+            _, args, params, ftys, lets = out
+            if sorted(args) != sorted(free): bad = 'the environment is built from %s, the free variables are %s' % (args, free)
+            elif len(params) != 2 or params[1] != 'p': bad = 'apply function parameters %s' % params
+            elif sorted(l[0] for l in lets) != sorted(free): bad = 'the apply function rebinds %s, the free variables are %s' % ([l[0] for l in lets], free)
+            else:
+                for name, j, src in lets:
+                    if src != params[0]: bad = '%s is read from %s, not from the environment parameter %s' % (name, src, params[0]); break
+                    if not (0 <= j < len(args)) or args[j] != name: bad = 'the closure stores %s in the fields 0.. but the apply function reads %s from field %d (which holds %s)' % (args, name, j, args[j] if 0 <= j < len(args) else 'nothing'); break
+                    if ftys[j] != VARS[name]: bad = 'field %d of the environment struct is declared %s, the variable %s stored there has type %s' % (j, ftys[j], name, VARS[name]); break
+        if bad and not r.findings:
+            ok_, detail = replay_rebind(free)
+            r.findings.append(Finding('capture-rebound-from-wrong-field', 'closure |p| (%s): %s' % (', '.join(uses), bad), {'uses': uses}, ok_, detail))
+        elif not bad and len(r.samples) < 3 and len(free) > 1: r.samples.append({'uses': uses, 'environment': out[1], 'rebinds': [list(l[:2]) for l in out[4]]})
+
+def replay_rebind(free):
+    """real CLI: a closure capturing the same variables; in --dump-lift every `let v = env.<field i>` must read the field the constructor filled with v"""
+    lits = {'a': ('int32', '1'), 'b': ('bool', 'true'), 's': ('string', '"t"'), 'u': ('unit', '()')}
+    vs = [v for v in free] or ['a']
+    src = 'fn main() -> unit {\n' + ''.join('    let %s: %s = %s;\n' % (v, lits[v][0], lits[v][1]) for v in vs) + '    let f = |p: int32| (%s, p);\n    let _ = f(1);\n    ()\n}\n' % ', '.join(vs)
+    d = tempfile.mkdtemp(prefix='vf-c08r-')
+    try:
+        open(os.path.join(d, 'main.gom'), 'w').write(src)
+        out = subprocess.run([build.compiler_bin(), 'run', '--dump-lift', os.path.join(d, 'main.gom')], capture_output=True, text=True, timeout=60).stdout
+    finally: shutil.rmtree(d, ignore_errors=True)
+    cons = re.search(r'(closure_env_\w+)\s*\{?\(?([^\n]*)', out)
+    order = re.findall(r'(\w+)/\d+', re.search(r'let f/\d+[^=]*=\s*([^\n;]*)', out).group(1)) if re.search(r'let f/\d+[^=]*=\s*([^\n;]*)', out) else []
+    reads = re.findall(r'let (\w+)/\d+[^=\n]*=\s*[^\n;]*?\.(\w+)', out)
+    wrong = []
+    for v, fld in reads:
+        m_ = re.match(r'(\w+?)_(\d+)$', fld)
+        if v in vs and m_ and (m_.group(1) != v or (order and int(m_.group(2)) < len(order) and order[int(m_.group(2))] != v)): wrong.append((v, fld))
+    return bool(wrong), 'goml `%s`: --dump-lift reads %s; constructor arguments %s; mismatching reads %s' % (src.replace('\n', ' | '), reads[:6], order, wrong)
+
+# ----------------------------------------------------------------------------- O8.6 a tuple that holds closures (at any depth) gets the lifted types of its components
+def ob_tuple_closure_type(r, tier, seed):
+    k = _lift_world(); T = k.T; M = k.M
+    CS = 'closure_env_main_0'
+    SHAPES = ['(l,l)', '((l,l),l)', '(l,(l,l))', '((l,l),(l,l))', '(((l,l),l),l)']
+    r.bounds = 'lift::transform_expr on tuple expressions of the shapes %s whose leaves are (solver decision each) the int32 literal 5 or the variable c: (int32) -> int32 holding a lifted closure (%s)' % (SHAPES, CS)
+    r.assumptions = ['c is in scope with its closure struct and %s is registered with State::register_closure_type (what transform_closure / ELet leave behind)' % CS,
+                     'oracle: the type of the lifted tuple, at every depth, is the tuple of the types of the lifted components: the closure environment struct where c stands, int32 where the literal stands - this type decides how a later projection / destructuring types the component and whether its call goes through the apply function']
+    fty = lambda: T('TFunc', PyVec([T('TInt32')]), mkbox(T('TInt32')))
+    def build(ex, sh, pos=[0]):
+        if sh == 'l':
+            c_ = ex.choose([(True, 'int'), (True, 'clo')])
+            return (M('EPrim', value=Agg(k.PR.key, k.PR.vindex('Int32'), [5]), ty=T('TInt32')), T('TInt32'), 'int32') if c_ == 'int' else (M('EVar', name=mkstr('c'), ty=fty()), fty(), CS)
+        inner = sh[1:-1]; parts = []; depth = 0; cur = ''
+        for ch in inner:
+            if ch == ',' and depth == 0: parts.append(cur); cur = ''; continue
+            depth += ch == '('; depth -= ch == ')'; cur += ch
+        parts.append(cur); sub = [build(ex, p_) for p_ in parts]
+        return M('ETuple', items=PyVec([s_[0] for s_ in sub]), ty=T('TTuple', PyVec([s_[1] for s_ in sub]))), T('TTuple', PyVec([s_[1] for s_ in sub])), tuple(s_[2] for s_ in sub)
+    def shape_of(t):
+        n = k.TY.variants[t.idx].name
+        if n == 'TTuple': return tuple(shape_of(x) for x in t.fields[0].items)
+        if n == 'TStruct': return ms.pystr(t.fields[0])
+        return {'TInt32': 'int32', 'TFunc': 'fn'}.get(n, n)
+    def entry(ex):
+        sh = ex.choose([(True, s_) for s_ in SHAPES])
+        h, hl = k.fresh_state(ex, {'c': (T('TStruct', mkstr(CS)), CS)}, closures=(CS,))
+        e, _, want = build(ex, sh)
+        res = ex.call('lift::transform_expr', [Ref(h, 0), Ref(h, 1), e])
+        hh = {0: res}; ty = ex.call('lift::LiftExpr::get_ty', [Ref(hh, 0)])
+        return sh, want, shape_of(ty)
+    res = e2.explore(r, k.W, entry, [])
+    for p in res:
+        r.cases += 1
+        if p.kind != 'ok':
+            if not any(f.key == 'panic' for f in r.findings): r.findings.append(Finding('panic', 'transform_expr panics on a tuple: %s' % str(p.value)[:200], {}, False, 'not replayed'))
+            continue
+        sh, want, got = p.value; r.nontrivial += 1
+        if got != want:
+            if r.findings: continue
+            ok_, detail = replay_tuple(want)
+            r.findings.append(Finding('tuple-type-not-lifted', 'tuple %s with components %s: the lifted expression has type %s' % (sh, want, got), {'shape': sh, 'components': str(want)}, ok_, detail))
+        elif len(r.samples) < 3 and CS in str(want): r.samples.append({'shape': sh, 'type': str(got)})
+
+def replay_tuple(want):
+    """real CLI: the same tuple built from a let-bound closure; --dump-lift must give the let-bound tuple a type that names a closure environment at every closure position"""
+    def lit(w): return ('(' + ', '.join(lit(x) for x in w) + ')') if isinstance(w, tuple) else ('5' if w == 'int32' else 'c')
+    def pat(w): return ('(' + ', '.join(pat(x) for x in w) + ')') if isinstance(w, tuple) else ('int32' if w == 'int32' else 'closure_env')
+    src = 'fn main() -> unit {\n    let k = 2;\n    let c = |x: int32| x + k;\n    let t = %s;\n    ()\n}\n' % lit(want)
+    d = tempfile.mkdtemp(prefix='vf-c08t-')
+    try:
+        open(os.path.join(d, 'main.gom'), 'w').write(src)
+        out = subprocess.run([build.compiler_bin(), 'run', '--dump-lift', os.path.join(d, 'main.gom')], capture_output=True, text=True, timeout=60).stdout
+    finally: shutil.rmtree(d, ignore_errors=True)
+    m_ = re.search(r'let t/\d+\s*:\s*([^=\n]*)=', out) or re.search(r'let t/\d+([^\n]*)', out)
+    tytext = m_.group(1) if m_ else ''
+    nclo = str(want).count('closure_env'); seen = tytext.count('closure_env')
+    return (m_ is not None and seen < nclo), 'goml `%s`: --dump-lift types t as `%s` (%d closure environments named, %d closures stored)' % (src.replace('\n', ' | '), tytext.strip()[:160], seen, nclo)
+
+_c08_obl5 = obligations
+def obligations():
+    return _c08_obl5() + [Ob('O8.5-closure-rebind-3', 'every captured variable is read back from the environment field it was stored in (closures using 3 variables)', ob_closure_rebind, ('quick', 'thorough'), 5, dict(nuses=3)),
+                          Ob('O8.5-closure-rebind-4', 'same, 4 uses', ob_closure_rebind, ('thorough',), 20, dict(nuses=4)),
+                          Ob('O8.6-tuple-closure-type', 'a tuple holding closures at any depth gets the lifted component types', ob_tuple_closure_type, ('quick', 'thorough'), 5, {})]
